@@ -1,14 +1,970 @@
-//! Further ops and generators (settings, QPACK, headers, sessions, capsules, …).
+//! Further ops and generators: settings, capsules, QPACK / Huffman / headers, sessions,
+//! adversarial decoding (C11), ignorable elements (C13), stream rules (C12), admission (C18).
+use std::borrow::Cow;
+
+use wtransport_proto::capsule::capsules::CloseWebTransportSession;
+use wtransport_proto::capsule::Capsule;
+use wtransport_proto::error::ErrorCode;
+use wtransport_proto::frame::Frame;
+use wtransport_proto::headers::Headers;
+use wtransport_proto::ids::StatusCode;
+use wtransport_proto::qpack::{Decoder, DecodingError, Encoder};
+use wtransport_proto::session::{HeadersParseError, SessionRequest, SessionResponse};
+use wtransport_proto::settings::{SettingId, Settings};
+use wtransport_proto::varint::VarInt;
 use wtverif_harness::*;
 
-use super::ops::Emit;
+use super::ops::*;
 
-pub fn run(op: &str, _a: &[String]) -> Vec<String> {
-    panic!("unknown op {op}")
+fn s(x: impl ToString) -> String {
+    x.to_string()
 }
 
-pub fn generate(prop: &str, _thorough: bool, _rng: &mut Rng, _emit: &mut Emit) {
-    panic!("no generator for {prop}")
+/// `k=v;k=v` with hex-encoded keys and values
+pub fn pairs_s(p: &[(Vec<u8>, Vec<u8>)]) -> String {
+    if p.is_empty() {
+        return "-".into();
+    }
+    p.iter().map(|(k, v)| format!("{}={}", hex(k), hex(v))).collect::<Vec<_>>().join(";")
 }
 
-pub fn gen_c14_more(_thorough: bool, _scale: u64, _rng: &mut Rng, _emit: &mut Emit) {}
+pub fn parse_pairs(t: &str) -> Vec<(Vec<u8>, Vec<u8>)> {
+    if t == "-" {
+        return vec![];
+    }
+    t.split(';')
+        .map(|kv| {
+            let (k, v) = kv.split_once('=').unwrap();
+            (unhex(k), unhex(v))
+        })
+        .collect()
+}
+
+fn sorted_map_s<'a>(it: impl Iterator<Item = (&'a String, &'a String)>) -> String {
+    let mut v: Vec<(Vec<u8>, Vec<u8>)> = it.map(|(k, v)| (k.as_bytes().to_vec(), v.as_bytes().to_vec())).collect();
+    v.sort();
+    pairs_s(&v)
+}
+
+fn utf8(b: &[u8]) -> String {
+    String::from_utf8(b.to_vec()).expect("generator produces UTF-8")
+}
+
+fn dec_err_s(e: &DecodingError) -> &'static str {
+    match e {
+        DecodingError::UnexpectedFin => "err:unexpected_fin",
+        DecodingError::IntegerOverflow => "err:integer_overflow",
+        DecodingError::InvalidString => "err:invalid_string",
+        DecodingError::DynamicNotSupported => "err:dynamic",
+        DecodingError::IndexNotfound => "err:index_not_found",
+    }
+}
+
+fn hpe_s(e: &HeadersParseError) -> &'static str {
+    match e {
+        HeadersParseError::MissingMethod => "missing_method",
+        HeadersParseError::MethodNotConnect => "method_not_connect",
+        HeadersParseError::MissingScheme => "missing_scheme",
+        HeadersParseError::SchemeNotHttps => "scheme_not_https",
+        HeadersParseError::MissingProtocol => "missing_protocol",
+        HeadersParseError::ProtocolNotWebTransport => "protocol_not_webtransport",
+        HeadersParseError::MissingAuthority => "missing_authority",
+        HeadersParseError::MissingPath => "missing_path",
+        HeadersParseError::MissingStatusCode => "missing_status",
+        HeadersParseError::InvalidStatusCode => "invalid_status",
+    }
+}
+
+/// independent varint reader used only to find ids in generated settings payloads
+fn scan_varints(b: &[u8]) -> Vec<u64> {
+    let mut v = vec![];
+    let mut i = 0;
+    while i < b.len() {
+        let n = 1usize << (b[i] >> 6);
+        if i + n > b.len() {
+            break;
+        }
+        let mut x = (b[i] & 0x3f) as u64;
+        for j in 1..n {
+            x = (x << 8) | b[i + j] as u64;
+        }
+        v.push(x);
+        i += n;
+    }
+    v
+}
+
+fn settings_entries(st: &Settings, candidates: &[u64]) -> String {
+    let known = [
+        (SettingId::QPackMaxTableCapacity, 0x01u64),
+        (SettingId::MaxFieldSectionSize, 0x06),
+        (SettingId::QPackBlockedStreams, 0x07),
+        (SettingId::EnableConnectProtocol, 0x08),
+        (SettingId::H3Datagram, 0x33),
+        (SettingId::EnableWebTransport, 0x2b60_3742),
+        (SettingId::WebTransportMaxSessions, 0xc671_706a),
+    ];
+    let mut out: Vec<(u64, u64)> = vec![];
+    for (id, n) in known {
+        if let Some(v) = st.get(id) {
+            out.push((n, v.into_inner()));
+        }
+    }
+    let mut seen = std::collections::BTreeSet::new();
+    for &c in candidates {
+        if c >= 0x21 && (c - 0x21) % 0x1f == 0 && c < (1 << 62) && seen.insert(c) {
+            if let Some(v) = st.get(SettingId::Exercise(VarInt::try_from_u64(c).unwrap())) {
+                out.push((c, v.into_inner()));
+            }
+        }
+    }
+    out.sort();
+    if out.is_empty() {
+        "-".into()
+    } else {
+        out.iter().map(|(k, v)| format!("{k}={v}")).collect::<Vec<_>>().join(",")
+    }
+}
+
+pub fn run(op: &str, a: &[String]) -> Vec<String> {
+    match op {
+        // settings.parse payloadhex | ok:<id=value,…>/h3:<code>
+        "settings.parse" => {
+            let b = unhex(&a[0]);
+            let f = Frame::new_settings(Cow::Owned(b.clone()));
+            vec![match Settings::with_frame(&f) {
+                Ok(st) => format!("ok:{}", settings_entries(&st, &scan_varints(&b))),
+                Err(e) => err_s(e),
+            }]
+        }
+        // settings.rt cap blocked connect wt dgram maxsess  (each `-` or a value) | payloadhex entries
+        "settings.rt" => {
+            let mut bld = Settings::builder();
+            let val = |t: &str| VarInt::try_from_u64(t.parse().unwrap()).unwrap();
+            if a[0] != "-" {
+                bld = bld.qpack_max_table_capacity(val(&a[0]));
+            }
+            if a[1] != "-" {
+                bld = bld.qpack_blocked_streams(val(&a[1]));
+            }
+            if a[2] != "-" {
+                bld = bld.enable_connect_protocol();
+            }
+            if a[3] != "-" {
+                bld = bld.enable_webtransport();
+            }
+            if a[4] != "-" {
+                bld = bld.enable_h3_datagrams();
+            }
+            if a[5] != "-" {
+                bld = bld.webtransport_max_sessions(val(&a[5]));
+            }
+            let st = bld.build();
+            let f = st.generate_frame();
+            let payload = f.payload().to_vec();
+            let mut buf = vec![0u8; payload.len() + 3];
+            let f2_len = st.generate_frame_ref(&mut buf).map(|f| f.payload().len());
+            let back = match Settings::with_frame(&f) {
+                Ok(st2) => format!("ok:{}", settings_entries(&st2, &[])),
+                Err(e) => err_s(e),
+            };
+            vec![
+                hex(&payload),
+                back,
+                match f2_len {
+                    Ok(n) => n.to_string(),
+                    Err(_) => "err".into(),
+                },
+            ]
+        }
+        // capsule.parse datapayloadhex | none / close:<code>:<reasonhex> / h3:<code>
+        "capsule.parse" => {
+            let b = unhex(&a[0]);
+            let f = Frame::new_data(Cow::Owned(b));
+            vec![match Capsule::with_frame(&f) {
+                None => "none".into(),
+                Some(c) => match CloseWebTransportSession::with_capsule(&c) {
+                    Ok(cl) => format!("close:{}:{}", cl.error_code().into_inner(), hex(cl.reason().as_bytes())),
+                    Err(e) => err_s(e),
+                },
+            }]
+        }
+        // qpack.decode hex | ok:<sorted pairs> / err:<kind>
+        "qpack.decode" => {
+            let b = unhex(&a[0]);
+            vec![match Decoder::decode(&b) {
+                Ok(m) => format!("ok:{}", sorted_map_s(m.iter())),
+                Err(e) => dec_err_s(&e).into(),
+            }]
+        }
+        // qpack.encode pairs(in order) | hex decoded-back
+        "qpack.encode" => {
+            let p = parse_pairs(&a[0]);
+            let v: Vec<(String, String)> = p.iter().map(|(k, v)| (utf8(k), utf8(v))).collect();
+            let enc = Encoder::encode(v.iter().map(|(k, v)| (k.as_str(), v.as_str())));
+            let back = match Decoder::decode(&enc[..]) {
+                Ok(m) => format!("ok:{}", sorted_map_s(m.iter())),
+                Err(e) => dec_err_s(&e).into(),
+            };
+            vec![hex(&enc), back]
+        }
+        // headers.rt pairs | payloadhex decoded(sorted) get-of-first
+        "headers.rt" => {
+            let p = parse_pairs(&a[0]);
+            let h: Headers = p.iter().map(|(k, v)| (utf8(k), utf8(v))).collect();
+            let f = h.generate_frame();
+            let back = match Headers::with_frame(&f) {
+                Ok(h2) => format!("ok:{}", sorted_map_s(h2.as_ref().iter())),
+                Err(e) => err_s(e),
+            };
+            vec![hex(f.payload()), back]
+        }
+        // headers.decode payloadhex | ok:<sorted pairs>/h3:<code>
+        "headers.decode" => {
+            let b = unhex(&a[0]);
+            let f = Frame::new_headers(Cow::Owned(b));
+            vec![match Headers::with_frame(&f) {
+                Ok(h2) => format!("ok:{}", sorted_map_s(h2.as_ref().iter())),
+                Err(e) => err_s(e),
+            }]
+        }
+        // huff.enc hex | hex ; huff.dec hex | ok:hex / err
+        "huff.enc" => {
+            let b = unhex(&a[0]);
+            let mut out = Vec::new();
+            let r = httlib_huffman::encode(&b, &mut out);
+            vec![if r.is_ok() { hex(&out) } else { "err".into() }]
+        }
+        "huff.dec" => {
+            let b = unhex(&a[0]);
+            let mut out = Vec::new();
+            let r = httlib_huffman::decode(&b, &mut out, httlib_huffman::DecoderSpeed::OneBit);
+            vec![if r.is_ok() { format!("ok:{}", hex(&out)) } else { "err".into() }]
+        }
+        // req.admit pairs | ok:<authorityhex>:<pathhex> / <error>      (SessionRequest::try_from)
+        "req.admit" => {
+            let p = parse_pairs(&a[0]);
+            let h: Headers = p.iter().map(|(k, v)| (utf8(k), utf8(v))).collect();
+            vec![match SessionRequest::try_from(h) {
+                Ok(r) => format!("ok:{}:{}", hex(r.authority().as_bytes()), hex(r.path().as_bytes())),
+                Err(e) => hpe_s(&e).into(),
+            }]
+        }
+        // req.wire payloadhex | session:<sorted pairs> / refuse:<code> / conn:<code>
+        // (what `handle_bi_h3_stream` decides from the HEADERS payload, recomputed with the public pieces)
+        "req.wire" => {
+            let b = unhex(&a[0]);
+            let f = Frame::new_headers(Cow::Owned(b));
+            vec![match Headers::with_frame(&f) {
+                Err(e) => format!("conn:{}", e.to_code().into_inner()),
+                Ok(h) => match SessionRequest::try_from(h) {
+                    Ok(r) => format!("session:{}", sorted_map_s(r.headers().as_ref().iter())),
+                    Err(HeadersParseError::MethodNotConnect) => {
+                        format!("refuse:{}", ErrorCode::RequestRejected.to_code().into_inner())
+                    }
+                    Err(_) => format!("refuse:{}", ErrorCode::Message.to_code().into_inner()),
+                },
+            }]
+        }
+        // resp.verdict pairs | ok:<code>:<successful> / missing_status / invalid_status
+        "resp.verdict" => {
+            let p = parse_pairs(&a[0]);
+            let h: Headers = p.iter().map(|(k, v)| (utf8(k), utf8(v))).collect();
+            vec![match SessionResponse::try_from(h) {
+                Ok(r) => {
+                    let c = r.code();
+                    format!("ok:{}:{}", c.into_inner(), c.is_successful())
+                }
+                Err(e) => hpe_s(&e).into(),
+            }]
+        }
+        // resp.build code extra-pairs | payloadhex code_back
+        "resp.build" => {
+            let code: u16 = a[0].parse().unwrap();
+            let mut r = SessionResponse::with_status_code(StatusCode::try_from(code).unwrap());
+            for (k, v) in parse_pairs(&a[1]) {
+                r.add(utf8(&k), utf8(&v));
+            }
+            let f = r.headers().generate_frame();
+            vec![hex(f.payload()), r.code().into_inner().to_string()]
+        }
+        // req.new urlhex extra-pairs | authority path query result
+        "req.new" => {
+            let u = utf8(&unhex(&a[0]));
+            let parsed = url::Url::parse(&u);
+            let (au, pa, qu) = match &parsed {
+                Ok(p) => (
+                    hex(p.authority().as_bytes()),
+                    hex(p.path().as_bytes()),
+                    p.query().map(|q| format!("some:{}", hex(q.as_bytes()))).unwrap_or("none".into()),
+                ),
+                Err(_) => ("-".into(), "-".into(), "none".into()),
+            };
+            let scheme = parsed.as_ref().map(|p| p.scheme().to_string()).unwrap_or_default();
+            let res = match SessionRequest::new(&u) {
+                Err(_) => "url_error".to_string(),
+                Ok(mut r) => {
+                    let mut reserved = None;
+                    for (k, v) in parse_pairs(&a[1]) {
+                        if r.insert(utf8(&k), utf8(&v)).is_err() {
+                            reserved = Some(k);
+                            break;
+                        }
+                    }
+                    match reserved {
+                        Some(k) => format!("reserved:{}", hex(&k)),
+                        None => format!(
+                            "ok:{}|{}|{}",
+                            hex(r.authority().as_bytes()),
+                            hex(r.path().as_bytes()),
+                            sorted_map_s(r.headers().as_ref().iter())
+                        ),
+                    }
+                }
+            };
+            vec![au, pa, qu, hex(scheme.as_bytes()), res]
+        }
+        _ => panic!("unknown op {op}"),
+    }
+}
+
+// ---------------------------------------------------------------------------------------------
+// generators
+
+const STATIC_NAMES: &[&str] = &[
+    ":authority", ":path", "age", "content-length", "cookie", ":method", ":scheme", ":status", "accept",
+    "accept-encoding", "cache-control", "content-type", "origin", "user-agent", "x-frame-options", "vary",
+    "authorization", "early-data", "purpose",
+];
+const STATIC_VALUES: &[&str] = &[
+    "", "/", "0", "CONNECT", "GET", "https", "http", "200", "404", "*/*", "gzip, deflate, br", "no-cache",
+    "text/plain", "deny", "sameorigin", "1", "prefetch", "origin", "max-age=0",
+];
+
+fn gen_token(rng: &mut Rng, len: usize) -> Vec<u8> {
+    const A: &[u8] = b"abcdefghijklmnopqrstuvwxyz0123456789-_.";
+    (0..len).map(|_| *rng.pick(A)).collect()
+}
+
+fn rbytes(rng: &mut Rng, below: u64) -> Vec<u8> {
+    let n = rng.below(below) as usize;
+    rng.bytes(n)
+}
+
+fn rtoken(rng: &mut Rng, below: u64) -> Vec<u8> {
+    let n = rng.below(below) as usize;
+    gen_token(rng, n)
+}
+
+fn gen_value(rng: &mut Rng) -> Vec<u8> {
+    match rng.below(8) {
+        0 => rng.pick(STATIC_VALUES).as_bytes().to_vec(),
+        1 => vec![],
+        2 => {
+            // multi-byte UTF-8 (Huffman-expanding)
+            let n = rng.range(1, 20) as usize;
+            "日本語é✓\u{10348}".chars().cycle().skip(rng.below(6) as usize).take(n).collect::<String>().into_bytes()
+        }
+        3 => {
+            let n = *rng.pick(&[6usize, 7, 8, 126, 127, 128, 129, 254, 255, 256, 300]);
+            gen_token(rng, n)
+        }
+        4 => {
+            // bytes with long Huffman codes (non-shrinking)
+            let n = rng.range(1, 40) as usize;
+            (0..n).map(|_| *rng.pick(b"\x01\x02~{}|<>\\^`")).collect()
+        }
+        _ => {
+            let n = rng.range(1, 30) as usize;
+            gen_token(rng, n)
+        }
+    }
+}
+
+fn gen_name(rng: &mut Rng) -> Vec<u8> {
+    match rng.below(5) {
+        0 | 1 => rng.pick(STATIC_NAMES).as_bytes().to_vec(),
+        2 => {
+            let n = *rng.pick(&[1usize, 6, 7, 8, 9, 126, 127, 134, 135]);
+            gen_token(rng, n)
+        }
+        _ => {
+            let n = rng.range(1, 16) as usize;
+            gen_token(rng, n)
+        }
+    }
+}
+
+pub fn gen_header_map(rng: &mut Rng, maxn: u64) -> Vec<(Vec<u8>, Vec<u8>)> {
+    let mut v: Vec<(Vec<u8>, Vec<u8>)> = vec![];
+    for _ in 0..rng.range(0, maxn) {
+        let k = gen_name(rng);
+        if v.iter().any(|(k2, _)| *k2 == k) {
+            continue;
+        }
+        v.push((k, gen_value(rng)));
+    }
+    v
+}
+
+/// independent QPACK literal encoder for adversarial field sections
+fn prefix_int(n: u32, flags: u8, mut value: u64) -> Vec<u8> {
+    let mask = (1u64 << n) - 1;
+    let fb = ((flags as u64) << n) as u8;
+    if value < mask {
+        return vec![fb | value as u8];
+    }
+    let mut v = vec![fb | mask as u8];
+    value -= mask;
+    while value >= 128 {
+        v.push((value % 128) as u8 | 0x80);
+        value /= 128;
+    }
+    v.push(value as u8);
+    v
+}
+
+fn lit_string(n: u32, flags: u8, huff: bool, s: &[u8]) -> Vec<u8> {
+    let data = if huff {
+        let mut o = vec![];
+        httlib_huffman::encode(s, &mut o).unwrap();
+        o
+    } else {
+        s.to_vec()
+    };
+    let mut v = prefix_int(n, (flags << 1) | huff as u8, data.len() as u64);
+    v.extend(data);
+    v
+}
+
+/// A field section built by hand: valid representations of every kind plus broken ones.
+pub fn gen_field_section(rng: &mut Rng) -> Vec<u8> {
+    let mut b = vec![];
+    match rng.below(6) {
+        0 => b.extend([0u8, 0]),
+        1 => {
+            b.extend(prefix_int(8, 0, rng.below(600)));
+            b.extend(prefix_int(7, rng.below(2) as u8, rng.below(300)));
+        }
+        _ => b.extend([0u8, 0]),
+    }
+    for _ in 0..rng.range(0, 5) {
+        match rng.below(12) {
+            0 | 1 => b.extend(prefix_int(6, 0b11, rng.below(99))), // indexed static
+            2 => b.extend(prefix_int(6, 0b11, *rng.pick(&[98u64, 99, 100, 1000, 1 << 40]))),
+            3 => b.extend(prefix_int(6, 0b10, rng.below(99))), // dynamic
+            4 | 5 => {
+                b.extend(prefix_int(4, 0b0101, rng.below(99)));
+                let v = gen_value(rng);
+                b.extend(lit_string(7, 0, rng.chance(1, 2), &v));
+            }
+            6 => {
+                b.extend(prefix_int(4, 0b0100, rng.below(99)));
+            }
+            7 | 8 | 9 => {
+                let k = gen_name(rng);
+                let v = gen_value(rng);
+                b.extend(lit_string(3, 0b10, rng.chance(1, 2), &k));
+                b.extend(lit_string(7, 0, rng.chance(1, 2), &v));
+            }
+            10 => b.push(*rng.pick(&[0x10u8, 0x1f, 0x00, 0x0f])), // post-base
+            _ => {
+                // maximal continuation runs / overflowing integers
+                b.push(*rng.pick(&[0xffu8, 0x5f, 0x27, 0x7f]));
+                let n = *rng.pick(&[1usize, 8, 9, 10, 11, 12, 20]);
+                for _ in 0..n {
+                    b.push(*rng.pick(&[0x80u8, 0xff, 0x81]));
+                }
+                b.push(*rng.pick(&[0x00u8, 0x01, 0x7f]));
+            }
+        }
+    }
+    b
+}
+
+fn mutate(rng: &mut Rng, mut b: Vec<u8>) -> Vec<u8> {
+    if b.is_empty() {
+        return b;
+    }
+    match rng.below(4) {
+        0 => {
+            let i = rng.below(b.len() as u64) as usize;
+            b[i] ^= 1 << rng.below(8);
+        }
+        1 => {
+            let i = rng.below(b.len() as u64) as usize;
+            b[i] = rng.next() as u8;
+        }
+        2 => b.truncate(rng.below(b.len() as u64) as usize),
+        _ => {
+            let i = rng.below(b.len() as u64 + 1) as usize;
+            b.insert(i, rng.next() as u8);
+        }
+    }
+    b
+}
+
+fn gen_settings_payload(rng: &mut Rng) -> Vec<u8> {
+    let mut b = vec![];
+    const IDS: [u64; 12] = [1, 6, 7, 8, 0x33, 0x2b60_3742, 0xc671_706a, 0, 2, 3, 4, 5];
+    for _ in 0..rng.range(0, 6) {
+        let id = match rng.below(6) {
+            0..=2 => *rng.pick(&IDS[..7]),
+            3 => grease_id(rng),
+            4 => unknown_frame_id(rng),
+            _ => *rng.pick(&IDS),
+        };
+        b.extend(enc_varint(id));
+        b.extend(enc_varint(rng.varint62()));
+    }
+    b
+}
+
+fn close_capsule(code: u32, reason: &[u8]) -> Vec<u8> {
+    let mut b = enc_varint(0x2843);
+    b.extend(enc_varint(4 + reason.len() as u64));
+    b.extend(code.to_be_bytes());
+    b.extend(reason);
+    b
+}
+
+fn gen_capsule_payload(rng: &mut Rng) -> Vec<u8> {
+    match rng.below(10) {
+        0..=3 => {
+            let code = *rng.pick(&[0u32, 1, 0xff, 0x0102_0304, u32::MAX, 0x8000_0000]);
+            let n = *rng.pick(&[0usize, 1, 3, 100, 1023, 1024, 1025]);
+            let reason = match rng.below(3) {
+                0 => gen_token(rng, n),
+                1 => "é✓日".chars().cycle().take(n / 3).collect::<String>().into_bytes(),
+                _ => {
+                    let mut r = gen_token(rng, n);
+                    if !r.is_empty() && rng.chance(1, 2) {
+                        let i = rng.below(r.len() as u64) as usize;
+                        r[i] = *rng.pick(&[0xffu8, 0xc0, 0x80, 0xed]);
+                    }
+                    r
+                }
+            };
+            close_capsule(code, &reason)
+        }
+        4 => {
+            // too short payloads
+            let mut b = enc_varint(0x2843);
+            let n = rng.range(0, 3) as usize;
+            b.extend(enc_varint(n as u64));
+            b.extend(rng.bytes(n));
+            b
+        }
+        5 => {
+            // declared length beyond the data
+            let mut b = enc_varint(0x2843);
+            b.extend(enc_varint(rng.range(5, 2000)));
+            b.extend(rng.bytes(4));
+            b
+        }
+        6 => {
+            // unknown capsule type
+            let mut b = enc_varint(unknown_frame_id(rng));
+            let n = rng.range(0, 10) as usize;
+            b.extend(enc_varint(n as u64));
+            b.extend(rng.bytes(n));
+            b
+        }
+        7 => {
+            // trailing bytes after the capsule
+            let mut b = close_capsule(7, b"x");
+            b.extend(rng.bytes(3));
+            b
+        }
+        _ => {
+            let n = rng.range(0, 8) as usize;
+            rng.bytes(n)
+        }
+    }
+}
+
+fn short_bytes_exhaustive(emit: &mut Emit, op: &str, maxlen: usize, stride: u64, extra: &[String]) {
+    // all byte strings up to maxlen (stride > 1 samples the last position)
+    let mut a: Vec<String> = vec!["-".into()];
+    a.extend(extra.iter().cloned());
+    emit(op, a);
+    for len in 1..=maxlen {
+        let total = 256u64.pow(len as u32);
+        let mut i = 0u64;
+        while i < total {
+            let mut b = vec![0u8; len];
+            let mut x = i;
+            for j in (0..len).rev() {
+                b[j] = (x % 256) as u8;
+                x /= 256;
+            }
+            let mut a = vec![hex(&b)];
+            a.extend(extra.iter().cloned());
+            emit(op, a);
+            i += if len == maxlen { stride } else { 1 };
+        }
+    }
+}
+
+pub fn gen_c14_more(_thorough: bool, scale: u64, rng: &mut Rng, emit: &mut Emit) {
+    // settings
+    let opt = |rng: &mut Rng| if rng.chance(1, 2) { s(rng.varint62()) } else { s("-") };
+    let flag = |rng: &mut Rng| if rng.chance(1, 2) { s("1") } else { s("-") };
+    for _ in 0..200 * scale {
+        let a = vec![opt(rng), opt(rng), flag(rng), flag(rng), flag(rng), opt(rng)];
+        emit("settings.rt", a);
+    }
+    emit("settings.rt", vec![s(0), s(0), s(1), s(1), s(1), s(1)]);
+    // header maps
+    for _ in 0..500 * scale {
+        let m = gen_header_map(rng, 8);
+        emit("headers.rt", vec![pairs_s(&m)]);
+        if rng.chance(1, 3) {
+            emit("qpack.encode", vec![pairs_s(&m)]);
+        }
+    }
+    // every static-table row as key/value hit and as key-only hit
+    for name in STATIC_NAMES {
+        for val in STATIC_VALUES.iter().take(6) {
+            emit("qpack.encode", vec![pairs_s(&[(name.as_bytes().to_vec(), val.as_bytes().to_vec())])]);
+        }
+    }
+    // Huffman: every single byte, random strings
+    for b in 0..=255u8 {
+        emit("huff.enc", vec![hex(&[b])]);
+        emit("huff.enc", vec![hex(&[b, b, b])]);
+    }
+    for _ in 0..300 * scale {
+        let v = gen_value(rng);
+        emit("huff.enc", vec![hex(&v)]);
+        let mut o = vec![];
+        httlib_huffman::encode(&v, &mut o).unwrap();
+        emit("huff.dec", vec![hex(&o)]);
+    }
+}
+
+pub fn generate(prop: &str, thorough: bool, rng: &mut Rng, emit: &mut Emit) {
+    let scale: u64 = if thorough { 10 } else { 1 };
+    match prop {
+        "C11" => {
+            // exhaustive short inputs for every decoder
+            let (l, stride) = if thorough { (3, 7) } else { (3, 997) };
+            for op in ["varint.dec", "frame.read", "sh.read", "dgram.read", "settings.parse", "capsule.parse",
+                       "qpack.decode", "huff.dec"] {
+                short_bytes_exhaustive(emit, op, if op == "qpack.decode" || op == "huff.dec" { l } else { l.min(3) }, stride, &[]);
+            }
+            // structured adversarial
+            for _ in 0..600 * scale {
+                let fs = gen_field_section(rng);
+                emit("qpack.decode", vec![hex(&fs)]);
+                emit("headers.decode", vec![hex(&fs)]);
+                let m = mutate(rng, fs);
+                emit("qpack.decode", vec![hex(&m)]);
+            }
+            // the integer-overflow family: prefix of each width, continuation runs of every length
+            for first in [0xffu8, 0x7f, 0x3f, 0x5f, 0x27, 0x2f] {
+                for n in 0..14usize {
+                    for (cont, last) in [(0x80u8, 0x01u8), (0xff, 0x7f), (0x80, 0x00), (0xff, 0x00), (0x81, 0x02)] {
+                        let mut b = vec![0u8, 0, first];
+                        b.extend(std::iter::repeat(cont).take(n));
+                        b.push(last);
+                        emit("qpack.decode", vec![hex(&b)]);
+                        let mut b2 = vec![first];
+                        b2.extend(std::iter::repeat(cont).take(n));
+                        b2.push(last);
+                        b2.push(0);
+                        emit("qpack.decode", vec![hex(&b2)]);
+                    }
+                }
+            }
+            for _ in 0..400 * scale {
+                let el = gen_element(rng);
+                let m = mutate(rng, el.clone());
+                emit("frame.read", vec![hex(&m)]);
+                for p in 0..=el.len().min(12) {
+                    emit("frame.read", vec![hex(&el[..p])]);
+                }
+                let sc = rscript(rng, m.len());
+                emit("frame.readasync", vec![hex(&m), fmt_script(&sc), s(gen_tail(rng))]);
+                let role = *rng.pick(&["birem", "biloc", "unirem", "sess"]);
+                emit("ts.read", vec![s(role), hex(&m)]);
+            }
+            for _ in 0..300 * scale {
+                let p = gen_settings_payload(rng);
+                emit("settings.parse", vec![hex(&p)]);
+                emit("settings.parse", vec![hex(&mutate(rng, p))]);
+                let c = gen_capsule_payload(rng);
+                emit("capsule.parse", vec![hex(&c)]);
+                emit("capsule.parse", vec![hex(&mutate(rng, c))]);
+                let mut d = enc_varint(rng.varint62());
+                let n = rng.range(0, 20) as usize;
+                d.extend(rng.bytes(n));
+                emit("dgram.read", vec![hex(&truncate_maybe(rng, d))]);
+                let n = rng.range(0, 40) as usize;
+                emit("huff.dec", vec![hex(&rng.bytes(n))]);
+            }
+        }
+        "C13" => {
+            // metamorphic pairs are built by the Lean driver from the two observations:
+            // `ts.ins role basehex inserted-hex-list positions` — see ops for `ts.ins`
+            for _ in 0..500 * scale {
+                let role = *rng.pick(&["birem", "biloc", "unirem", "sess"]);
+                // base: a valid exchange for the role
+                let nframes = rng.range(1, 4);
+                let mut base: Vec<Vec<u8>> = vec![];
+                for i in 0..nframes {
+                    let f = match (role, rng.below(4)) {
+                        ("unirem", _) => format!("settings:{}:-", hex(&gen_settings_payload(rng))),
+                        ("birem", 0) if i == 0 => format!("wt:-:{}", gen_sid(rng)),
+                        (_, 1) => format!("headers:{}:-", hex(&rbytes(rng, 30))),
+                        _ => format!("data:{}:-", hex(&rbytes(rng, 30))),
+                    };
+                    base.push(frame_arg_bytes(&f));
+                }
+                // ignorable elements
+                let mut ins: Vec<Vec<u8>> = vec![];
+                for _ in 0..rng.range(1, 3) {
+                    let id = if rng.chance(1, 2) { grease_id(rng) } else { unknown_frame_id(rng) };
+                    let payload = match rng.below(5) {
+                        0 => vec![],
+                        1 => frame_arg_bytes(&gen_frame_arg(rng)), // looks like a frame
+                        2 => vec![0x01, 0x00],                      // looks like an empty HEADERS frame
+                        3 => {
+                            let n = *rng.pick(&[4095usize, 4096, 4097, 5000]);
+                            rng.bytes(n)
+                        }
+                        _ => {
+                            let n = rng.range(1, 60) as usize;
+                            rng.bytes(n)
+                        }
+                    };
+                    let mut e = enc_varint(id);
+                    e.extend(enc_varint(payload.len() as u64));
+                    e.extend(payload);
+                    ins.push(e);
+                }
+                // a WT signal must stay first for birem: never insert before it (a GREASE frame
+                // before the signal is itself a frame and legitimately makes the signal "not first")
+                let lo = if role == "birem" && base[0].starts_with(&[0x40, 0x41]) { 1 } else { 0 };
+                let mut with: Vec<Vec<u8>> = base.clone();
+                for e in &ins {
+                    let pos = rng.range(lo, with.len() as u64) as usize;
+                    with.insert(pos, e.clone());
+                }
+                let flat = |v: &Vec<Vec<u8>>| v.iter().flatten().copied().collect::<Vec<u8>>();
+                emit("ts.ins", vec![s(role), hex(&flat(&base)), hex(&flat(&with))]);
+            }
+            for _ in 0..200 * scale {
+                // settings payloads with unknown / GREASE ids inserted
+                let mut base: Vec<(u64, u64)> = vec![];
+                for id in [1u64, 6, 7, 8, 0x33, 0x2b60_3742, 0xc671_706a] {
+                    if rng.chance(1, 2) {
+                        base.push((id, rng.varint62()));
+                    }
+                }
+                let mut with = base.clone();
+                let mut used = std::collections::BTreeSet::new();
+                for _ in 0..rng.range(1, 3) {
+                    let id = if rng.chance(1, 2) { grease_id(rng) } else { loop {
+                        let v = unknown_frame_id(rng);
+                        if ![1u64, 6, 7, 8, 0x33, 0x2b60_3742, 0xc671_706a, 0, 2, 3, 4, 5].contains(&v) { break v; }
+                    } };
+                    if !used.insert(id) {
+                        continue;
+                    }
+                    let pos = rng.range(0, with.len() as u64) as usize;
+                    with.insert(pos, (id, rng.varint62()));
+                }
+                let ser = |v: &Vec<(u64, u64)>| {
+                    let mut b = vec![];
+                    for (k, x) in v {
+                        b.extend(enc_varint(*k));
+                        b.extend(enc_varint(*x));
+                    }
+                    b
+                };
+                emit("settings.ins", vec![hex(&ser(&base)), hex(&ser(&with))]);
+            }
+            for _ in 0..200 * scale {
+                // capsules: unknown capsule types are skipped by the session stream reader
+                let c = gen_capsule_payload(rng);
+                emit("capsule.parse", vec![hex(&c)]);
+            }
+            for _ in 0..200 * scale {
+                // unidirectional stream types
+                let id = match rng.below(3) { 0 => grease_id(rng), _ => unknown_frame_id(rng) };
+                let mut b = enc_varint(id);
+                let n = rng.range(0, 6) as usize;
+                b.extend(rng.bytes(n));
+                emit("sh.read", vec![hex(&b)]);
+            }
+        }
+        "C12" => {
+            // all histories over the alphabet up to the depth bound, each typestate
+            let alphabet: Vec<(&str, Vec<u8>)> = vec![
+                ("data", frame_arg_bytes("data:aabb:-")),
+                ("headers", frame_arg_bytes("headers:0000:-")),
+                ("settings", frame_arg_bytes("settings:0801:-")),
+                ("wt_valid", frame_arg_bytes("wt:-:4")),
+                ("wt_invalid", { let mut b = enc_varint(0x41); b.extend(enc_varint(5)); b }),
+                ("grease", frame_arg_bytes("ex33:0102:-")),
+                ("oversize", { let mut b = enc_varint(0); b.extend(enc_varint(4097)); b }),
+                ("unknown", { let mut b = enc_varint(7); b.extend([1u8, 0]); b }),
+            ];
+            let depth = if thorough { 4 } else { 3 };
+            let mut hist: Vec<Vec<usize>> = vec![vec![]];
+            for _ in 0..depth {
+                let mut next = vec![];
+                for h in &hist {
+                    for i in 0..alphabet.len() {
+                        let mut h2 = h.clone();
+                        h2.push(i);
+                        next.push(h2);
+                    }
+                }
+                for h in &next {
+                    let bytes: Vec<u8> = h.iter().flat_map(|&i| alphabet[i].1.clone()).collect();
+                    let names: Vec<&str> = h.iter().map(|&i| alphabet[i].0).collect();
+                    for role in ["birem", "biloc", "unirem", "sess"] {
+                        for tail in ["fin", "open"] {
+                            let sc = rscript(rng, bytes.len());
+                            emit("ts.hist", vec![s(role), names.join(","), hex(&bytes), fmt_script(&sc), s(tail)]);
+                        }
+                        // truncated inside the last element, end of stream
+                        let last_len = alphabet[*h.last().unwrap()].1.len();
+                        if last_len >= 2 {
+                            let keep = 1 + rng.below(last_len as u64 - 1) as usize;
+                            let cut = bytes.len() - last_len + keep;
+                            let sc = rscript(rng, cut);
+                            let mut nm = names.clone();
+                            nm.push("truncated");
+                            emit("ts.hist", vec![s(role), nm.join(","), hex(&bytes[..cut]), fmt_script(&sc), s("fin")]);
+                        }
+                    }
+                }
+                hist = next;
+            }
+            for _ in 0..300 * scale {
+                let p = gen_settings_payload(rng);
+                emit("settings.parse", vec![hex(&p)]);
+            }
+        }
+        "C18" => {
+            // header maps: each pseudo-header missing / wrong / right, arbitrary extras
+            let pseudo: [(&str, &str, &[&str]); 5] = [
+                (":method", "CONNECT", &["GET", "connect", "", "POST"]),
+                (":scheme", "https", &["http", "HTTPS", ""]),
+                (":protocol", "webtransport", &["websocket", "WebTransport", ""]),
+                (":authority", "example.org:443", &["", "localhost"]),
+                (":path", "/x?y=1", &["", "/"]),
+            ];
+            for mask in 0..3u32.pow(5) {
+                let mut m: Vec<(Vec<u8>, Vec<u8>)> = vec![];
+                let mut x = mask;
+                for (k, good, bad) in pseudo.iter() {
+                    match x % 3 {
+                        0 => m.push((k.as_bytes().to_vec(), good.as_bytes().to_vec())),
+                        1 => m.push((k.as_bytes().to_vec(), rng.pick(bad).as_bytes().to_vec())),
+                        _ => {}
+                    }
+                    x /= 3;
+                }
+                for (k, v) in gen_header_map(rng, 3) {
+                    if !k.starts_with(b":") {
+                        m.push((k, v));
+                    }
+                }
+                emit("req.admit", vec![pairs_s(&m)]);
+                // through the wire form too
+                let v: Vec<(String, String)> = m.iter().map(|(k, v)| (utf8(k), utf8(v))).collect();
+                let h: Headers = v.iter().cloned().collect();
+                emit("req.wire", vec![hex(h.generate_frame().payload())]);
+            }
+            // status strings: every integer 0..65535 (thorough) / sampled + all boundaries (quick)
+            let step = if thorough { 1 } else { 7 };
+            let mut v = 0u32;
+            while v <= 65540 {
+                emit("status.str", vec![hex(v.to_string().as_bytes())]);
+                v += step;
+            }
+            for v in [0u32, 1, 9, 10, 99, 100, 101, 199, 200, 201, 299, 300, 399, 400, 599, 600, 601, 999, 1000, 65535, 65536, 99999] {
+                emit("status.str", vec![hex(v.to_string().as_bytes())]);
+                emit("status.from", vec![s(v)]);
+                for dec in ["+{}", "-{}", " {}", "{} ", "0{}", "00{}", "{}.0", "0x{}", "{}a"] {
+                    emit("status.str", vec![hex(dec.replace("{}", &v.to_string()).as_bytes())]);
+                }
+                emit("resp.verdict", vec![pairs_s(&[(b":status".to_vec(), v.to_string().into_bytes())])]);
+            }
+            for t in ["", "abc", "+", "-", "２００", "200\n", "\u{0662}\u{0660}\u{0660}", "1e2", "²"] {
+                emit("status.str", vec![hex(t.as_bytes())]);
+                emit("resp.verdict", vec![pairs_s(&[(b":status".to_vec(), t.as_bytes().to_vec())])]);
+            }
+            emit("resp.verdict", vec![s("-")]);
+            for v in 0..700u64 {
+                emit("status.from", vec![s(v)]);
+            }
+            for v in [65535u64, 65536, 65636, 1 << 32, (1 << 32) + 200, u64::MAX, 256 + 200, 65536 + 200] {
+                emit("status.from", vec![s(v)]);
+            }
+            for _ in 0..200 * scale {
+                let code = rng.range(100, 599);
+                let extra: Vec<(Vec<u8>, Vec<u8>)> = gen_header_map(rng, 3).into_iter().filter(|(k, _)| !k.starts_with(b":")).collect();
+                emit("resp.build", vec![s(code), pairs_s(&extra)]);
+            }
+            // reserved and near-reserved names; URLs
+            let urls = ["https://example.org/", "https://example.org", "https://example.org:4433/a/b?x=1&y=2",
+                        "https://[::1]:443/p", "https://127.0.0.1:8443/?q", "https://user:pw@host.example/p%20q?a=b#frag",
+                        "http://example.org/", "wss://example.org/", "https://", "not a url", "https://exa mple.org/",
+                        "https://EXAMPLE.org:443/UP", "https://example.org/?", "https://example.org/#f"];
+            let names = [":method", ":scheme", ":protocol", ":authority", ":path", ":status", ":Method", "method",
+                         ":methods", " :path", "origin", "user-agent", ":path ", "x"];
+            for u in urls {
+                emit("req.new", vec![hex(u.as_bytes()), s("-")]);
+                for n in names {
+                    emit("req.new", vec![hex(u.as_bytes()), pairs_s(&[(n.as_bytes().to_vec(), b"v".to_vec())])]);
+                }
+            }
+            for _ in 0..200 * scale {
+                let host = *rng.pick(&["example.org", "127.0.0.1", "[::1]", "a.b.c.example", "localhost"]);
+                let port = if rng.chance(1, 2) { format!(":{}", rng.range(1, 65535)) } else { String::new() };
+                let path = if rng.chance(1, 4) { String::new() } else { format!("/{}", utf8(&rtoken(rng, 12))) };
+                let query = if rng.chance(1, 2) { format!("?{}", utf8(&rtoken(rng, 10))) } else { String::new() };
+                let u = format!("https://{host}{port}{path}{query}");
+                let extra: Vec<(Vec<u8>, Vec<u8>)> = gen_header_map(rng, 3);
+                emit("req.new", vec![hex(u.as_bytes()), pairs_s(&extra)]);
+            }
+        }
+        "C04" => {
+            for _ in 0..1500 * scale {
+                let c = gen_capsule_payload(rng);
+                emit("capsule.parse", vec![hex(&c)]);
+            }
+            for code in [0u32, 1, 255, 256, 65535, 65536, 0x0102_0304, 0x7fff_ffff, 0x8000_0000, u32::MAX] {
+                for n in [0usize, 1, 2, 1023, 1024, 1025] {
+                    let r = gen_token(rng, n);
+                    emit("capsule.parse", vec![hex(&close_capsule(code, &r))]);
+                }
+            }
+        }
+        "C02" => {
+            for _ in 0..800 * scale {
+                let m = gen_header_map(rng, 8);
+                emit("headers.rt", vec![pairs_s(&m)]);
+            }
+            for _ in 0..300 * scale {
+                let host = *rng.pick(&["example.org", "127.0.0.1", "[::1]", "xn--nxasmq6b.example", "localhost"]);
+                let port = if rng.chance(1, 2) { format!(":{}", rng.range(1, 65535)) } else { String::new() };
+                let path = if rng.chance(1, 4) { String::new() } else { format!("/{}", utf8(&rtoken(rng, 40))) };
+                let query = if rng.chance(1, 2) { format!("?{}", utf8(&rtoken(rng, 30))) } else { String::new() };
+                let u = format!("https://{host}{port}{path}{query}");
+                let extra: Vec<(Vec<u8>, Vec<u8>)> = gen_header_map(rng, 5).into_iter().filter(|(k, _)| !k.starts_with(b":")).collect();
+                emit("req.new", vec![hex(u.as_bytes()), pairs_s(&extra)]);
+            }
+            for code in (100..600u64).step_by(if thorough { 1 } else { 7 }) {
+                let extra: Vec<(Vec<u8>, Vec<u8>)> = gen_header_map(rng, 3).into_iter().filter(|(k, _)| !k.starts_with(b":")).collect();
+                emit("resp.build", vec![s(code), pairs_s(&extra)]);
+            }
+        }
+        _ => panic!("no generator for {prop}"),
+    }
+}
